@@ -83,14 +83,19 @@ fn main() {
                     let jac: f64 = rows[row].iter().filter(|e| e.0 == v).map(|e| e.1).sum();
                     let f1 = d4(&c, &x, row, v as usize, h);
                     let f2 = d4(&c, &x, row, v as usize, h / 2.0);
-                    let fd = (16.0 * f2 - f1) / 15.0;
+                    let f3 = d4(&c, &x, row, v as usize, h / 4.0);
+                    let fd_coarse = (16.0 * f2 - f1) / 15.0;
+                    let fd = (16.0 * f3 - f2) / 15.0;
+                    // how well the extrapolated estimates agree with each other bounds the error of `fd`
+                    // (short vectors make the higher derivatives large: the stencil must resolve them)
+                    let fd_err = (fd - fd_coarse).abs();
                     let tol_smooth = 1e-5 * (f1.abs().max(f2.abs()).max(rownorm));
-                    if !(f1.is_finite() && f2.is_finite()) || (f1 - f2).abs() > tol_smooth {
+                    if !(f1.is_finite() && f2.is_finite() && f3.is_finite()) || (f1 - f2).abs() > tol_smooth {
                         ok_case = false;
                         break 'rows;
                     }
                     case_entries += 1;
-                    let tol = 1e-6 * rownorm.max(fd.abs()) + 1e-9;
+                    let tol = 1e-6 * rownorm.max(fd.abs()) + 1e-9 + 10.0 * fd_err;
                     if (jac - fd).abs() > tol {
                         out.push(Violation {
                             property: "C13",
